@@ -186,6 +186,16 @@ pub struct ThreadCtx<T: Payload> {
 }
 
 impl<T: Payload> ThreadCtx<T> {
+    /// The duration handed to a timed call. A deadline of `LONG_US` or more stands for "cannot expire in this
+    /// run"; for those, every other call (by thread and position) passes `Duration::MAX`, the idiom for "no limit",
+    /// whose deadline `Instant` cannot represent.
+    fn dur(&self, us: u32) -> Duration {
+        if us >= crate::scn::LONG_US && (self.th as u32 + self.idx) % 2 == 1 {
+            Duration::MAX
+        } else {
+            Duration::from_micros(us as u64)
+        }
+    }
     pub fn new(th: u16, tag_lo: Tag, tag_hi: Tag) -> Self {
         ThreadCtx { th, idx: 0, stream: None, stream_owner: None, held_r: None, held_r_owner: None, held_s: None, held_s_owner: None, held_stream: None, held_stream_owner: None, last_waker_stream: 0, wakers: (0..3).map(|i| WakeCell::new(100 + i, None)).collect(), last_waker_r: 0, last_waker_s: 0, senders: vec![], receivers: vec![], log: Vec::new(), next_tag: tag_lo, tag_end: tag_hi, pat: th as u64, status: None, keep_one: false }
     }
@@ -333,7 +343,7 @@ impl<T: Payload> ThreadCtx<T> {
             }
             Op::SendTimeout(us) => {
                 let h = self.senders.last().unwrap();
-                match h.sy().send_timeout(made.take().unwrap(), Duration::from_micros(us as u64)) {
+                match h.sy().send_timeout(made.take().unwrap(), self.dur(us)) {
                     Ok(()) => Res::Ok,
                     Err(e) => set(e),
                 }
@@ -343,7 +353,7 @@ impl<T: Payload> ThreadCtx<T> {
                 let v = made.take().unwrap();
                 let tag = v.tag();
                 let mut opt = Some(v);
-                let r = match h.sy().send_option_timeout(&mut opt, Duration::from_micros(us as u64)) {
+                let r = match h.sy().send_option_timeout(&mut opt, self.dur(us)) {
                     Ok(()) => Res::Ok,
                     Err(e) => set(e),
                 };
@@ -409,7 +419,7 @@ impl<T: Payload> ThreadCtx<T> {
                 Ok(v) => Self::recvd(v),
                 Err(e) => re(e),
             },
-            Op::RecvTimeout(us) => match self.receivers.last().unwrap().sy().recv_timeout(Duration::from_micros(us as u64)) {
+            Op::RecvTimeout(us) => match self.receivers.last().unwrap().sy().recv_timeout(self.dur(us)) {
                 Ok(v) => Self::recvd(v),
                 Err(e) => ret(e),
             },
